@@ -455,3 +455,345 @@ func bytesEqualVerif(a, b []byte) bool {
 	}
 	return true
 }
+
+// ---------------------------------------------------------------------------
+// C01: frame encode/decode round trip.  Every lemma builds a spec-valid frame value from
+// symbolic fields, asserts that the encoder accepts it, decodes the bytes into a fresh
+// PHYPayload and compares field by field (FCnt modulo 2^16; ClassB/FPending share one bit).
+// ---------------------------------------------------------------------------
+
+func lemmaC01_joinrequest(major Major, joinEUI, devEUI EUI64, devNonce DevNonce, mic MIC) {
+	if major > 3 {
+		return
+	}
+	p := PHYPayload{MHDR: MHDR{MType: JoinRequest, Major: major}, MACPayload: &JoinRequestPayload{JoinEUI: joinEUI, DevEUI: devEUI, DevNonce: devNonce}, MIC: mic}
+	b, err := p.MarshalBinary()
+	verifAssert(err == nil, "encodes")
+	if err != nil {
+		return
+	}
+	verifAssert(len(b) == 23, "length")
+	var q PHYPayload
+	err2 := q.UnmarshalBinary(b)
+	verifAssert(err2 == nil, "decodes")
+	if err2 != nil {
+		return
+	}
+	verifAssert(q.MHDR == p.MHDR && q.MIC == p.MIC, "header-mic")
+	jr, ok := q.MACPayload.(*JoinRequestPayload)
+	verifAssert(ok, "payload-type")
+	if ok {
+		verifAssert(jr.JoinEUI == joinEUI && jr.DevEUI == devEUI && jr.DevNonce == devNonce, "payload-equal")
+	}
+}
+
+func lemmaC01_rejoin02(major Major, typ JoinType, netID NetID, devEUI EUI64, cnt uint16, mic MIC) {
+	if major > 3 || (typ != 0 && typ != 2) {
+		return
+	}
+	p := PHYPayload{MHDR: MHDR{MType: RejoinRequest, Major: major}, MACPayload: &RejoinRequestType02Payload{RejoinType: typ, NetID: netID, DevEUI: devEUI, RJCount0: cnt}, MIC: mic}
+	b, err := p.MarshalBinary()
+	verifAssert(err == nil, "encodes")
+	if err != nil {
+		return
+	}
+	verifAssert(len(b) == 19, "length")
+	var q PHYPayload
+	err2 := q.UnmarshalBinary(b)
+	verifAssert(err2 == nil, "decodes")
+	if err2 != nil {
+		return
+	}
+	verifAssert(q.MHDR == p.MHDR && q.MIC == p.MIC, "header-mic")
+	rj, ok := q.MACPayload.(*RejoinRequestType02Payload)
+	verifAssert(ok, "payload-type")
+	if ok {
+		verifAssert(rj.RejoinType == typ && rj.NetID == netID && rj.DevEUI == devEUI && rj.RJCount0 == cnt, "payload-equal")
+	}
+}
+
+func lemmaC01_rejoin1(major Major, joinEUI, devEUI EUI64, cnt uint16, mic MIC) {
+	if major > 3 {
+		return
+	}
+	p := PHYPayload{MHDR: MHDR{MType: RejoinRequest, Major: major}, MACPayload: &RejoinRequestType1Payload{RejoinType: 1, JoinEUI: joinEUI, DevEUI: devEUI, RJCount1: cnt}, MIC: mic}
+	b, err := p.MarshalBinary()
+	verifAssert(err == nil, "encodes")
+	if err != nil {
+		return
+	}
+	verifAssert(len(b) == 24, "length")
+	var q PHYPayload
+	err2 := q.UnmarshalBinary(b)
+	verifAssert(err2 == nil, "decodes")
+	if err2 != nil {
+		return
+	}
+	verifAssert(q.MHDR == p.MHDR && q.MIC == p.MIC, "header-mic")
+	rj, ok := q.MACPayload.(*RejoinRequestType1Payload)
+	verifAssert(ok, "payload-type")
+	if ok {
+		verifAssert(rj.RejoinType == 1 && rj.JoinEUI == joinEUI && rj.DevEUI == devEUI && rj.RJCount1 == cnt, "payload-equal")
+	}
+}
+
+// join-accept: the frame decoder keeps the (encrypted) payload as bytes; the join-accept decoder
+// is applied to those bytes as DecryptJoinAcceptPayload does after decryption (C04 covers the cipher).
+func lemmaC01_joinaccept(major Major, v JoinAcceptPayload, mic MIC) {
+	if major > 3 || v.JoinNonce >= 1<<24 || v.RXDelay > 15 || v.DLSettings.RX2DataRate > 15 || v.DLSettings.RX1DROffset > 7 {
+		return
+	}
+	v.CFList = nil
+	p := PHYPayload{MHDR: MHDR{MType: JoinAccept, Major: major}, MACPayload: &v, MIC: mic}
+	b, err := p.MarshalBinary()
+	verifAssert(err == nil, "encodes")
+	if err != nil {
+		return
+	}
+	verifAssert(len(b) == 17, "length")
+	var q PHYPayload
+	err2 := q.UnmarshalBinary(b)
+	verifAssert(err2 == nil, "decodes")
+	if err2 != nil {
+		return
+	}
+	verifAssert(q.MHDR == p.MHDR, "mhdr")
+	verifAssert(q.MIC == p.MIC, "mic")
+	dp, ok := q.MACPayload.(*DataPayload)
+	verifAssert(ok, "payload-type")
+	if !ok {
+		return
+	}
+	var w JoinAcceptPayload
+	err3 := w.UnmarshalBinary(false, dp.Bytes)
+	verifAssert(err3 == nil, "payload-decodes")
+	if err3 != nil {
+		return
+	}
+	verifAssert(w.JoinNonce == v.JoinNonce, "joinnonce")
+	verifAssert(w.HomeNetID == v.HomeNetID, "netid")
+	verifAssert(w.DevAddr == v.DevAddr, "devaddr")
+	verifAssert(w.DLSettings == v.DLSettings, "dlsettings")
+	verifAssert(w.RXDelay == v.RXDelay, "rxdelay")
+	verifAssert(w.CFList == nil, "no-cflist")
+}
+
+// join-accept with a CFList of channel frequencies (every multiple of 100 Hz below 2^24 * 100 Hz)
+func lemmaC01_joinaccept_cflist(major Major, v JoinAcceptPayload, k [5]uint32, mic MIC) {
+	if major > 3 || v.JoinNonce >= 1<<24 || v.RXDelay > 15 || v.DLSettings.RX2DataRate > 15 || v.DLSettings.RX1DROffset > 7 {
+		return
+	}
+	var ch [5]uint32
+	for i, x := range k {
+		if x >= 1<<24 {
+			return
+		}
+		ch[i] = x * 100
+	}
+	v.CFList = &CFList{CFListType: CFListChannel, Payload: &CFListChannelPayload{Channels: ch}}
+	p := PHYPayload{MHDR: MHDR{MType: JoinAccept, Major: major}, MACPayload: &v, MIC: mic}
+	b, err := p.MarshalBinary()
+	verifAssert(err == nil, "encodes")
+	if err != nil {
+		return
+	}
+	verifAssert(len(b) == 33, "length")
+	var q PHYPayload
+	err2 := q.UnmarshalBinary(b)
+	verifAssert(err2 == nil, "decodes")
+	if err2 != nil {
+		return
+	}
+	dp, ok := q.MACPayload.(*DataPayload)
+	verifAssert(ok, "payload-type")
+	if !ok {
+		return
+	}
+	var w JoinAcceptPayload
+	err3 := w.UnmarshalBinary(false, dp.Bytes)
+	verifAssert(err3 == nil, "payload-decodes")
+	if err3 != nil {
+		return
+	}
+	verifAssert(w.CFList != nil, "cflist-present")
+	if w.CFList == nil {
+		return
+	}
+	verifAssert(w.CFList.CFListType == CFListChannel, "cflist-type")
+	cp, ok2 := w.CFList.Payload.(*CFListChannelPayload)
+	verifAssert(ok2, "cflist-payload-type")
+	if ok2 {
+		verifAssert(cp.Channels == ch, "cflist-equal")
+	}
+}
+
+// data frames, FOpts / FRMPayload as the bytes they carry
+func lemmaC01_dataframe(mtype MType, major Major, devAddr DevAddr, fctrl FCtrl, fcnt uint32, fopts []byte, hasPort bool, port uint8, frm []byte, mic MIC) {
+	// the four data message types, each with a concrete MType (keeps the decoder's dispatch ground)
+	switch mtype {
+	case UnconfirmedDataUp:
+		lemmaC01_dataframe1(UnconfirmedDataUp, major, devAddr, fctrl, fcnt, fopts, hasPort, port, frm, mic)
+	case UnconfirmedDataDown:
+		lemmaC01_dataframe1(UnconfirmedDataDown, major, devAddr, fctrl, fcnt, fopts, hasPort, port, frm, mic)
+	case ConfirmedDataUp:
+		lemmaC01_dataframe1(ConfirmedDataUp, major, devAddr, fctrl, fcnt, fopts, hasPort, port, frm, mic)
+	case ConfirmedDataDown:
+		lemmaC01_dataframe1(ConfirmedDataDown, major, devAddr, fctrl, fcnt, fopts, hasPort, port, frm, mic)
+	}
+}
+
+func lemmaC01_dataframe1(mtype MType, major Major, devAddr DevAddr, fctrl FCtrl, fcnt uint32, fopts []byte, hasPort bool, port uint8, frm []byte, mic MIC) {
+	if major > 3 {
+		return
+	}
+	// spec-valid: at most 15 FOpts bytes; FRMPayload only with an FPort; FPort 0 excludes FOpts
+	if len(fopts) > 15 {
+		return
+	}
+	if !hasPort {
+		if len(frm) != 0 {
+			return
+		}
+	} else if port == 0 {
+		if len(fopts) > 0 {
+			return
+		}
+	}
+	mp := &MACPayload{FHDR: FHDR{DevAddr: devAddr, FCtrl: fctrl, FCnt: fcnt}}
+	if len(fopts) > 0 {
+		mp.FHDR.FOpts = []Payload{&DataPayload{Bytes: fopts}}
+	}
+	if hasPort {
+		pt := port
+		mp.FPort = &pt
+	}
+	if len(frm) > 0 {
+		mp.FRMPayload = []Payload{&DataPayload{Bytes: frm}}
+	}
+	p := PHYPayload{MHDR: MHDR{MType: mtype, Major: major}, MACPayload: mp, MIC: mic}
+	b, err := p.MarshalBinary()
+	verifAssert(err == nil, "encodes")
+	if err != nil {
+		return
+	}
+	var q PHYPayload
+	err2 := q.UnmarshalBinary(b)
+	verifAssert(err2 == nil, "decodes")
+	if err2 != nil {
+		return
+	}
+	// (one comparison per assertion: && / || in Go are control flow and would multiply the paths)
+	verifAssert(q.MHDR == p.MHDR, "mhdr")
+	verifAssert(q.MIC == p.MIC, "mic")
+	mq, ok := q.MACPayload.(*MACPayload)
+	verifAssert(ok, "payload-type")
+	if !ok {
+		return
+	}
+	verifAssert(mq.FHDR.DevAddr == devAddr, "devaddr")
+	verifAssert(mq.FHDR.FCnt == fcnt&0xffff, "fcnt16")
+	verifAssert(mq.FHDR.FCtrl.ADR == fctrl.ADR, "fctrl-adr")
+	verifAssert(mq.FHDR.FCtrl.ADRACKReq == fctrl.ADRACKReq, "fctrl-adrackreq")
+	verifAssert(mq.FHDR.FCtrl.ACK == fctrl.ACK, "fctrl-ack")
+	bit4 := verifOr(fctrl.ClassB, fctrl.FPending)
+	verifAssert(mq.FHDR.FCtrl.ClassB == bit4, "fctrl-classb")
+	verifAssert(mq.FHDR.FCtrl.FPending == bit4, "fctrl-fpending")
+	verifAssert((mq.FPort != nil) == hasPort, "fport-presence")
+	if mq.FPort != nil {
+		verifAssert(*mq.FPort == port, "fport-equal")
+	}
+	verifAssert((len(mq.FHDR.FOpts) == 1) == (len(fopts) > 0), "fopts-presence")
+	verifAssert(len(mq.FHDR.FOpts) <= 1, "fopts-single")
+	if len(mq.FHDR.FOpts) == 1 {
+		d, ok2 := mq.FHDR.FOpts[0].(*DataPayload)
+		verifAssert(ok2, "fopts-type")
+		if ok2 {
+			verifAssert(bytesEqualVerif(d.Bytes, fopts), "fopts-equal")
+		}
+	}
+	verifAssert((len(mq.FRMPayload) == 1) == (len(frm) > 0), "frm-presence")
+	verifAssert(len(mq.FRMPayload) <= 1, "frm-single")
+	if len(mq.FRMPayload) == 1 {
+		d, ok2 := mq.FRMPayload[0].(*DataPayload)
+		verifAssert(ok2, "frm-type")
+		if ok2 {
+			verifAssert(bytesEqualVerif(d.Bytes, frm), "frm-equal")
+		}
+	}
+}
+
+func verifOr(a, b bool) bool { return a || b }
+
+// the four shapes of a data frame (FOpts present / absent x FPort present / absent)
+func lemmaC01_data_plain(mtype MType, major Major, devAddr DevAddr, fctrl FCtrl, fcnt uint32, mic MIC) {
+	lemmaC01_dataframe(mtype, major, devAddr, fctrl, fcnt, nil, false, 0, nil, mic)
+}
+
+func lemmaC01_data_port(mtype MType, major Major, devAddr DevAddr, fctrl FCtrl, fcnt uint32, port uint8, frm []byte, mic MIC) {
+	lemmaC01_dataframe(mtype, major, devAddr, fctrl, fcnt, nil, true, port, frm, mic)
+}
+
+func lemmaC01_data_fopts(mtype MType, major Major, devAddr DevAddr, fctrl FCtrl, fcnt uint32, fopts []byte, mic MIC) {
+	if len(fopts) == 0 {
+		return
+	}
+	lemmaC01_dataframe(mtype, major, devAddr, fctrl, fcnt, fopts, false, 0, nil, mic)
+}
+
+func lemmaC01_data_fopts_port(mtype MType, major Major, devAddr DevAddr, fctrl FCtrl, fcnt uint32, fopts []byte, port uint8, frm []byte, mic MIC) {
+	if len(fopts) == 0 {
+		return
+	}
+	lemmaC01_dataframe(mtype, major, devAddr, fctrl, fcnt, fopts, true, port, frm, mic)
+}
+
+// FOpts given as MAC commands: the decoded FOpts, decoded again into MAC commands as the receiver
+// does (DecodeFOptsToMACCommands), are the commands that were put in.
+func lemmaC01_fopts_commands(devAddr DevAddr, fcnt uint32, ans LinkADRAnsPayload, mic MIC) {
+	mp := &MACPayload{FHDR: FHDR{DevAddr: devAddr, FCnt: fcnt, FOpts: []Payload{
+		&MACCommand{CID: LinkCheckReq},
+		&MACCommand{CID: LinkADRAns, Payload: &ans},
+	}}}
+	p := PHYPayload{MHDR: MHDR{MType: UnconfirmedDataUp, Major: LoRaWANR1}, MACPayload: mp, MIC: mic}
+	b, err := p.MarshalBinary()
+	verifAssert(err == nil, "encodes")
+	if err != nil {
+		return
+	}
+	verifAssert(len(b) == 15, "length")
+	var q PHYPayload
+	err2 := q.UnmarshalBinary(b)
+	verifAssert(err2 == nil, "decodes")
+	if err2 != nil {
+		return
+	}
+	err3 := q.DecodeFOptsToMACCommands()
+	verifAssert(err3 == nil, "fopts-decode")
+	if err3 != nil {
+		return
+	}
+	mq, ok := q.MACPayload.(*MACPayload)
+	verifAssert(ok, "payload-type")
+	if !ok {
+		return
+	}
+	verifAssert(len(mq.FHDR.FOpts) == 2, "two-commands")
+	if len(mq.FHDR.FOpts) != 2 {
+		return
+	}
+	c0, ok0 := mq.FHDR.FOpts[0].(*MACCommand)
+	verifAssert(ok0, "cmd0-type")
+	c1, ok1 := mq.FHDR.FOpts[1].(*MACCommand)
+	verifAssert(ok1, "cmd1-type")
+	if !ok0 || !ok1 {
+		return
+	}
+	verifAssert(c0.CID == LinkCheckReq, "cmd0-cid")
+	verifAssert(c0.Payload == nil, "cmd0-nopayload")
+	verifAssert(c1.CID == LinkADRAns, "cmd1-cid")
+	pl, okp := c1.Payload.(*LinkADRAnsPayload)
+	verifAssert(okp, "cmd1-payload-type")
+	if okp {
+		verifAssert(*pl == ans, "cmd1-payload-equal")
+	}
+}
